@@ -22,6 +22,7 @@ LEVEL = {O.MUL: 4, O.DIV: 4, O.MOD: 4, O.ADD: 5, O.SUB: 5, O.EQ: 6, O.NE: 6, O.L
 NB = len(BINOPS)
 UNOPS = [None, O.ADD, O.SUB, O.NOT]
 LP, RP, LS, RS = T.BracToken.LPAREN, T.BracToken.RPAREN, T.BracToken.LSQUARE, T.BracToken.RSQUARE
+CM = T.SepToken.COMMA
 CTX = BC.YOU
 NAMES = ['a', 'b', 'c', 'd']
 
@@ -46,8 +47,18 @@ def real_parse(toks):
 def shape(n):
     if isinstance(n, A.VariableLookup):
         return n.var.name
+    if isinstance(n, A.ByteValue):
+        return ('chr', n.data)
     if isinstance(n, A.IntValue):
         return n.data
+    if isinstance(n, A.StringValue):
+        return ('str', n.data)
+    if isinstance(n, A.BoolValue):
+        return ('bool', n.data)
+    if isinstance(n, A.ArrayLiteral):
+        return ('arr',) + tuple(shape(v) for v in n.values)
+    if isinstance(n, A.FuncCall):
+        return ('call', n.func.name) + tuple(shape(v) for v in n.args)
     if isinstance(n, A.Speculation):
         return (O.SPECULATION, shape(n.left), shape(n.right))
     if isinstance(n, A.Binary):
@@ -84,9 +95,30 @@ class Ref:
         elif isinstance(t, T.Ident):
             self.i += 1
             e = t.name
+            if self.peek() == LP:
+                self.i += 1
+                items = self.comma_list(RP)
+                if items is None:
+                    return None
+                e = ('call', t.name) + items
         elif isinstance(t, T.IntToken):
             self.i += 1
             e = t.data
+        elif isinstance(t, T.CharToken):
+            self.i += 1
+            e = ('chr', t.data)
+        elif isinstance(t, T.StringToken):
+            self.i += 1
+            e = ('str', t.data)
+        elif isinstance(t, T.BoolToken):
+            self.i += 1
+            e = ('bool', t.data)
+        elif t == LS:
+            self.i += 1
+            items = self.comma_list(RS)
+            if items is None:
+                return None
+            e = ('arr',) + items
         else:
             return None
         while True:
@@ -106,6 +138,23 @@ class Ref:
                 e = ('len', e)
             else:
                 return e
+
+    def comma_list(self, close):
+        items = []
+        if self.peek() != close:
+            while True:
+                e = self.top()
+                if e is None:
+                    return None
+                items.append(e)
+                if self.peek() == CM:
+                    self.i += 1
+                    continue
+                break
+        if self.peek() != close:
+            return None
+        self.i += 1
+        return tuple(items)
 
     def unary(self):
         t = self.peek()
@@ -240,6 +289,120 @@ def lemma_unary_before_cast(u: int, post: int, j: int) -> bool:
     return real_parse(toks) == ref_parse(toks)
 
 
+# ---- every kind of primary expression takes postfix operators, which bind tighter than any operator
+def primary_toks(k, name):
+    return [[T.Ident(name)], [T.IntToken(7)], [T.StringToken(b'str')], [T.CharToken(99)], [T.BoolToken.TRUE], [LP, T.IntToken(7), RP], [LP, T.StringToken(b'str'), RP],
+            [LP, T.Ident(name), RP], [LS, T.IntToken(1), CM, T.Ident(name), RS], [LS, RS], [T.Ident('f'), LP, T.Ident(name), CM, T.IntToken(2), RP], [T.Ident('f'), LP, RP],
+            [LP, T.Ident(name), O.ADD, T.IntToken(1), RP], [LS, T.StringToken(b's'), RS]][k]
+
+
+NPRIM = 14
+
+
+def postfix_toks(post):
+    if post == 1:
+        return [LS, T.IntToken(0), RS]
+    if post == 2:
+        return [T.SepToken.DOT, T.Ident('length')]
+    if post == 3:
+        return [LS, T.Ident('i'), O.ADD, T.IntToken(1), RS, T.SepToken.DOT, T.Ident('length')]
+    if post == 4:
+        return [LS, T.IntToken(0), RS, LS, T.IntToken(1), RS]
+    return []
+
+
+def _postfix_primaries(k, post, u, j):
+    un = [UNOPS[u]] if UNOPS[u] is not None else []
+    toks = un + primary_toks(k, 'a') + postfix_toks(post) + [BINOPS[j]] + primary_toks(k, 'b') + postfix_toks(post)
+    r = real_parse(toks)
+    return r is not None and r == ref_parse(toks)
+
+
+def lemma_postfix_on_primaries(k: int, post: int, jr: int) -> bool:
+    """
+    pre: 0 <= k < NPRIM and 0 <= post <= 4 and 0 <= jr < 3
+    post: __return__
+    """
+    return _postfix_primaries(k, post, 2, [0, 7, 13][jr])       # * < ??
+
+
+def lemma_postfix_on_primaries_full(k: int, post: int, u: int, j: int) -> bool:
+    """
+    pre: 0 <= k < NPRIM and 0 <= post <= 4 and 0 <= u <= 3 and 0 <= j < NB
+    post: __return__
+    """
+    return _postfix_primaries(k, post, u, j)
+
+
+def lemma_postfix_inside(k: int, post: int, where: int) -> bool:
+    """
+    pre: 0 <= k < NPRIM and 1 <= post <= 4 and 0 <= where <= 2
+    post: __return__
+    """
+    inner = primary_toks(k, 'a') + postfix_toks(post)
+    if where == 0:
+        toks = [T.Ident('f'), LP] + inner + [CM] + inner + [RP]
+    elif where == 1:
+        toks = [T.Ident('b'), LS] + inner + [RS]
+    else:
+        toks = [LS] + inner + [CM] + inner + [RS, LS, T.IntToken(0), RS]
+    r = real_parse(toks)
+    return r is not None and r == ref_parse(toks)
+
+
+# ---- long chains: operators of one level group to the left however long the chain is
+def _chain_left(i, j, n):
+    if LEVEL[BINOPS[i]] != LEVEL[BINOPS[j]] or BINOPS[i] == O.SPECULATION:
+        return True
+    toks = [T.Ident(NAMES[0])]
+    for m in range(1, n):
+        toks += [BINOPS[i] if m % 2 else BINOPS[j], T.Ident(NAMES[m % 4])]
+    r = real_parse(toks)
+    if r is None or r != ref_parse(toks):
+        return False
+    # left-deep spine: the right child of every node on the spine is a leaf
+    depth = 0
+    while isinstance(r, tuple):
+        if isinstance(r[2], tuple):
+            return False
+        r = r[1]
+        depth += 1
+    return depth == n - 1
+
+
+CHAIN_NS = [5, 10, 14]
+CHAIN_OPS = [(0, 1), (3, 4), (7, 5), (11, 11), (12, 12)]      # (operator, same-level partner) per binary level: * /  + -  < ==  and  or
+
+
+def lemma_chain_left(lv: int, alt: int, ni: int) -> bool:
+    """
+    pre: 0 <= lv < 5 and 0 <= alt <= 1 and 0 <= ni < 3
+    post: __return__
+    """
+    i, j = CHAIN_OPS[lv]
+    return _chain_left(i, j if alt else i, CHAIN_NS[ni])
+
+
+def lemma_chain_left_full(i: int, j: int, n: int) -> bool:
+    """
+    pre: 0 <= i < NB and 0 <= j < NB and 3 <= n <= 14
+    post: __return__
+    """
+    return _chain_left(i, j, n)
+
+
+def lemma_chain_mixed(i: int, j: int, n: int) -> bool:
+    """
+    pre: 0 <= i < NB and 0 <= j < NB and 3 <= n <= 12
+    post: __return__
+    """
+    # two operators of any levels alternating: only agreement with the reference grouping is required
+    toks = [T.Ident(NAMES[0])]
+    for m in range(1, n):
+        toks += [BINOPS[i] if m % 2 else BINOPS[j], T.Ident(NAMES[m % 4])]
+    return real_parse(toks) == ref_parse(toks)
+
+
 def twin_pairs(i: int, j: int) -> bool:
     """
     pre: 0 <= i < NB and 0 <= j < NB
@@ -347,8 +510,18 @@ def twin_round_trip(i: int, j: int) -> bool:
     return len(render(t)) == 5          # false whenever parentheses are needed
 
 
-THOROUGH_ONLY = ['lemma_pairs_postfix_cast', 'lemma_triples_level_reps', 'lemma_round_trip_level_reps']
-SPLITS = {'lemma_unary_before_cast': ('u', 1, 4), 'lemma_pairs_unary': ('i', 14), 'lemma_round_trip_two': ('i', 14), 'lemma_pairs_postfix_cast': ('i', 14), 'lemma_triples_level_reps': ('i', 6), 'lemma_round_trip_level_reps': ('i', 6)}
+THOROUGH_ONLY = ['lemma_pairs_postfix_cast', 'lemma_triples_level_reps', 'lemma_round_trip_level_reps', 'lemma_chain_mixed', 'lemma_chain_left_full', 'lemma_postfix_on_primaries_full']
+def twin_chain_left_split(lv: int, alt: int, ni: int) -> bool:
+    """
+    pre: 0 <= lv < 5 and 0 <= alt <= 1 and 0 <= ni < 3
+    post: __return__
+    """
+    # vacuity twin of the partitioned lemmas: false for one value in every partition
+    i, j = CHAIN_OPS[lv]
+    return _chain_left(i, j if alt else i, CHAIN_NS[ni]) and ni != 1
+
+
+SPLITS = {'twin_chain_left_split': ('lv', 5), 'lemma_postfix_on_primaries': ('k', 14), 'lemma_postfix_on_primaries_full': ('k', 14), 'lemma_chain_left_full': ('i', 14), 'lemma_postfix_inside': ('k', 14), 'lemma_chain_left': ('lv', 5), 'lemma_chain_mixed': ('i', 14), 'lemma_unary_before_cast': ('u', 1, 4), 'lemma_pairs_unary': ('i', 14), 'lemma_round_trip_two': ('i', 14), 'lemma_pairs_postfix_cast': ('i', 14), 'lemma_triples_level_reps': ('i', 6), 'lemma_round_trip_level_reps': ('i', 6)}
 
 # warm caches
 _ = CTX.flavors
